@@ -88,7 +88,7 @@ void frequent_items_sketch<T, W, H, E, A>::merge(frequent_items_sketch&& other) 
 
 template<typename T, typename W, typename H, typename E, typename A>
 bool frequent_items_sketch<T, W, H, E, A>::is_empty() const {
-  return map.get_num_active() == 0;
+  return total_weight == 0;
 }
 
 template<typename T, typename W, typename H, typename E, typename A>
